@@ -246,6 +246,36 @@ CHECKS['C02'] = dict(
     technique='Lean 4 proof by mutual structural induction (differential-ring semantics) + differential correspondence',
     design='6/C02')
 
+CHECKS['C03'] = dict(
+    text='Lean 4 theorems on the model of LogicalExpr.eval + PullBack + Covariant + the lowering of the symbolic Jacobian '
+         '(Model/Pullback.lean; the mapping is given by its components, symbolic M[i] or explicit expressions; Jacobian, '
+         'determinant and adjugate by closed formulas in dimensions 1-3; the model has its own total logical differentiator): '
+         'logical_sound — for every terminal physical expression (coordinates, constants, functions of kind H1 / L2 / '
+         'undefined, components of vector functions of kind H1 / Hcurl / Hdiv / L2 / undefined, sums, products, integer powers '
+         'and quotients, elementary functions, physical derivatives nested to any order), every mapping with invertible '
+         'Jacobian and every dimension 1..3, the transformed expression read at a logical point with the fields replaced by '
+         'their pull-backs has the value of the original at the image point, in every pair of differential rings related by '
+         'the chain rule (MapRel), i.e. for all fields and points; proved by structural induction together with the '
+         'invariants (integer powers, non-degeneracy) that close it under repeated differentiation (logical_all, ldiff_all). '
+         'The commuting relations behind the operator-level rules are proved as polynomial identities modulo det·δ = 1: '
+         'div((J/det)û) = (1/det) div̂ û in 1-D, 2-D, 3-D, curl(J⁻ᵀû) = (1/det) curl̂ û in 2-D and = (J/det) curl̂ û in 3-D, '
+         'grad u = J⁻ᵀ ∇̂û (div_rule_sound1/2/3, curl_rule_sound2, curl_rule_sound3_0/1/2, grad_rule_sound) for every Jacobian with '
+         'symmetric derivatives. Tie: random terminal and generic expressions over symbolic, user-defined polynomial '
+         '(orientation preserving and reversing, with symbolic parameters) and catalogue mappings (identity, affine, polar, '
+         'target, Czarny, torus, spherical, twisted target; Collela by the oracle only), every space kind, dims 1-3, both '
+         'routes named in the property (TerminalExpr∘LogicalExpr and LogicalExpr∘TerminalExpr) compared with the model as '
+         'rational functions of the atoms (50-digit evaluation at random atom values); the rule-level requests compare '
+         'LogicalExpr(grad/div/curl) with the proved rules. Oracle (independent of the model): explicit mapping and explicit '
+         'physical fields, value of the original at F(x̂) against the transformed expression at x̂ with the pulled-back fields.',
+    note='Trusted: Lean kernel; the chain rule d_i k = Σ_j (J⁻¹)_ji ∂̂_j k as the meaning of a physical derivative of a function '
+         'given in logical coordinates (hypothesis of MapRel, it forces d_i x_k = δ_ik); smooth functions form a differential '
+         'ring (symmetric second derivatives); the comparison of implementation and model is numeric at 50 digits on random atom '
+         'values (1e-9 when the mapping is written with floating-point literals). The theorem covers integer powers; square roots '
+         'in a mapping (Czarny) are handled by the model and the correspondence, not by the theorem. Generic operators other '
+         'than the three rules are covered through route B (terminal form) and the oracle.',
+    technique='Lean 4 proof (structural induction + polynomial identities) + differential correspondence',
+    design='6/C03')
+
 CHECKS['C11'] = dict(
     text='Lean 4 theorems: the generic integrand assembled by Norm / SemiNorm for kinds l2, h1, h2 and scalar or vector '
          'arguments denotes exactly the classical Sobolev integrand (sum of squares of the components, of all first and '
